@@ -975,3 +975,541 @@ def dump_doc(v, t, model, r):
     raise ValueError(k)
 
 
+
+
+# ======================================================================== surface annotations
+# (annotation-resolution front end; Gallina counterpart: coq/model/V1Annot.v)
+#
+# A SURFACE annotation is a core type tree in which any node may be wrapped:
+#   {'k':'ann','t':S}                      Annotated[S, 'm']
+#   {'k':'qual','q':Required|NotRequired|ReadOnly,'t':S}
+#   {'k':'alias','name':X}                 a `type X = ...` alias object (model['surface']['aliases'][X])
+#   {'k':'str','t':S}                      a string / ForwardRef whose text spells S
+# model['surface'] = {'mod_of': {item_key: module index}, 'imports': {str(m): [names]},
+#                     'cls': [[S per field] per class], 'named': {N: [S per field]},
+#                     'typed': {N: {'req': [S], 'opt': [S], 'total': bool}},
+#                     'aliases': {X: S}, 'tg': bool}
+# item keys: 'data:<i>' 'named:<N>' 'typed:<N>' 'alias:<X>'.  Module 0 is the lowest; module m may
+# refer to objects of modules < m (as M<j>.<name>, or by bare name when imported).  The core model
+# (classes / named / typed) is what the surface denotes; everything else of the harness uses the core.
+QUALS = ('Required', 'NotRequired', 'ReadOnly')
+COQ_QUAL = {'Required': 'QRequired', 'NotRequired': 'QNotRequired', 'ReadOnly': 'QReadOnly'}
+TG_SEQ = {'list': 'List', 'set': 'Set', 'frozenset': 'FrozenSet', 'deque': 'Deque'}
+
+
+def s_ann(t): return {'k': 'ann', 't': t}
+def s_qual(q, t): return {'k': 'qual', 'q': q, 't': t}
+def s_alias(n): return {'k': 'alias', 'name': n}
+def s_str(t): return {'k': 'str', 't': t}
+
+
+def item_of(s):
+    k = s['k']
+    if k == 'data':
+        return 'data:%d' % s['c']
+    if k in ('named', 'typed', 'alias'):
+        return '%s:%s' % (k, s['name'])
+    return None
+
+
+def item_name(model, item):
+    kind, x = item.split(':', 1)
+    return model['classes'][int(x)]['name'] if kind == 'data' else x
+
+
+def s_children(s):
+    k = s['k']
+    if k in ('seq', 'opt', 'optr', 'ann', 'qual', 'str'):
+        return [s['t']]
+    if k in ('tuple', 'union'):
+        return list(s['ts'])
+    if k == 'dict':
+        return [s['kt'], s['vt']]
+    return []
+
+
+def s_map(s, f):
+    """rebuild s with f applied to every child"""
+    k = s['k']
+    out = dict(s)
+    if k in ('seq', 'opt', 'optr', 'ann', 'qual', 'str'):
+        out['t'] = f(s['t'])
+    elif k in ('tuple', 'union'):
+        out['ts'] = [f(x) for x in s['ts']]
+    elif k == 'dict':
+        out['kt'], out['vt'] = f(s['kt']), f(s['vt'])
+    return out
+
+
+def core_of(s, model):
+    """the core type a surface annotation denotes (reference semantics: every wrapper is transparent)"""
+    k = s['k']
+    if k in ('ann', 'qual', 'str'):
+        return core_of(s['t'], model)
+    if k == 'alias':
+        return core_of(model['surface']['aliases'][s['name']], model)
+    out = s_map(s, lambda x: core_of(x, model))
+    out.pop('_hole', None)
+    out.pop('pin', None)
+    return out
+
+
+def unstr(s):
+    if s['k'] == 'str':
+        return unstr(s['t'])
+    return s_map(s, unstr)
+
+
+def s_refs(s):
+    """every object reference in the text of s (through nested strings)"""
+    it = item_of(s)
+    out = [it] if it else []
+    for c in s_children(s):
+        out += s_refs(c)
+    return out
+
+
+def module_names(model, m):
+    """bare names bound in module m: its own definitions and what it imports"""
+    surf = model['surface']
+    own = [item_name(model, it) for it, mm in surf['mod_of'].items() if mm == m]
+    return set(own) | set(surf['imports'].get(str(m), []))
+
+
+def s_classlike(s):
+    return s['k'] in ('leaf', 'data', 'named', 'typed')
+
+
+def s_head(s, model, cur, pin=None):
+    """Python mirror of get_string_for_annotation's single pass (independent of the Gallina text; used to
+    classify failing cases into the regions of the open findings and to pack fields into classes):
+    -> ('ok', h) | ('type', why) | ('name', why)"""
+    a = s
+    if a['k'] == 'str':
+        m = cur if pin is None else pin
+        bound = module_names(model, m)
+        for it in s_refs(a):
+            if item_name(model, it) not in bound:
+                return ('name', '%s is not bound in module %d' % (item_name(model, it), m))
+        a = unstr(a)
+    if a['k'] in ('ann', 'qual'):
+        a = a['t']
+    thru = a['t'] if a['k'] == 'ann' else a
+    if thru['k'] == 'alias':
+        a = model['surface']['aliases'][thru['name']]
+    if a['k'] == 'ann':
+        return ('ok', a['t']) if s_classlike(a['t']) else ('type', 'a generic is left below Annotated')
+    if a['k'] in ('str', 'qual', 'alias'):
+        return ('type', 'a %s is left after the single pass' % a['k'])
+    return ('ok', a)
+
+
+def s_comps(h, model):
+    """components the hooks pass to get_string_for_annotation again: (annotation, pin)"""
+    surf = model['surface']
+    k = h['k']
+    if k == 'named':
+        return [(x, None) for x in surf['named'][h['name']]]
+    if k == 'typed':
+        m = surf['mod_of']['typed:' + h['name']]
+        d = surf['typed'][h['name']]
+        return [(x, m if x['k'] == 'str' else None) for x in d['req'] + d['opt']]
+    return [(c, None) for c in s_children(h)]
+
+
+def s_verdict(s, model, cur, pin=None, depth=0, helper=False, seen=frozenset()):
+    """None when resolution succeeds everywhere below s (not crossing into dataclasses);
+    else ('type'|'name', why, inside_helper).  `seen`: aliases / helper types being expanded (recursion)"""
+    if depth > 40:
+        return None
+    r = s_head(s, model, cur, pin)
+    if r[0] != 'ok':
+        return (r[0], r[1], helper)
+    h = r[1]
+    key = s_alias_of(s)
+    if h['k'] in ('named', 'typed'):
+        key = key or (h['k'] + ':' + h['name'])
+    if key:
+        if (key, cur) in seen:
+            return None
+        seen = seen | {(key, cur)}
+    for c, p in s_comps(h, model):
+        v = s_verdict(c, model, cur, p, depth + 1, helper or h['k'] in ('named', 'typed') or bool(s_alias_of(s)), seen)
+        if v:
+            return v
+    return None
+
+
+def s_alias_of(s):
+    a = s['t'] if s['k'] == 'str' else s
+    a = a['t'] if a['k'] in ('ann', 'qual') else a
+    a = a['t'] if a['k'] == 'ann' else a
+    return 'alias:' + a['name'] if a['k'] == 'alias' else None
+
+
+def s_through_alias(s, model):
+    a = s['t'] if s['k'] in ('str', 'ann', 'qual') else s
+    a = a['t'] if a['k'] == 'ann' else a
+    return a['k'] == 'alias'
+
+
+def surface_verdict(model):
+    """first failing annotation of the program, class by class in its own module: None | (kind, why, in_helper, class)"""
+    surf = model['surface']
+    for ci, fields in enumerate(surf['cls']):
+        cur = surf['mod_of']['data:%d' % ci]
+        for s in fields:
+            v = s_verdict(s, model, cur)
+            if v:
+                return v + (model['classes'][ci]['name'],)
+    return None
+
+
+# ---------------------------------------------------------------------------------- surface -> Python source
+def py_sann(s, model, P):
+    """P = {'mod': module being printed, 'in_str': bool, 'q': quote to use for the next string}"""
+    k = s['k']
+    tg = model['surface'].get('tg')
+    rec = lambda x: py_sann(x, model, P)
+    if k == 'leaf':
+        l = s['l']
+        return l[5:] if l.startswith('enum:') else PY_LEAF[l]
+    if k == 'seq':
+        if s['kind'] == 'tuple':
+            return '%s[%s, ...]' % ('Tuple' if tg else 'tuple', rec(s['t']))
+        return '%s[%s]' % (TG_SEQ[s['kind']] if tg else s['kind'], rec(s['t']))
+    if k == 'tuple':
+        return '%s[%s]' % ('Tuple' if tg else 'tuple', ', '.join(rec(x) for x in s['ts']))
+    if k == 'dict':
+        nm = ('DefaultDict' if tg else 'defaultdict') if s['dd'] else 'OrderedDict' if s.get('od') else ('Dict' if tg else 'dict')
+        return '%s[%s, %s]' % (nm, rec(s['kt']), rec(s['vt']))
+    if k == 'opt':
+        return 'Optional[%s]' % rec(s['t'])
+    if k == 'optr':
+        return 'Union[None, %s]' % rec(s['t'])
+    if k == 'union':
+        if s.get('bar'):         # PEP 604 spelling
+            return ' | '.join('None' if x == leaf('none') else rec(x) for x in s['ts'])
+        return 'Union[%s]' % ', '.join(rec(x) for x in s['ts'])
+    if k == 'lit':
+        q = P['q'] if P['in_str'] else "'"
+        return 'Literal[%s]' % ', '.join(q + v + q if isinstance(v, str) else repr(v) for v in s['vs'])
+    if k in ('named', 'typed', 'data', 'alias'):
+        it = item_of(s)
+        name = item_name(model, it)
+        dm = model['surface']['mod_of'][it]
+        if P['in_str'] or dm == P['mod'] or name in model['surface']['imports'].get(str(P['mod']), []):
+            return name
+        return 'M%d.%s' % (dm, name)
+    if k == 'ann':
+        if s.get('twice'):       # Annotated[Annotated[T, a], b] is flattened by typing: the same object
+            return 'Annotated[Annotated[%s, 1], 2]' % rec(s['t'])
+        return 'Annotated[%s, 1]' % rec(s['t'])
+    if k == 'qual':
+        return '%s[%s]' % (s['q'], rec(s['t']))
+    if k == 'str':
+        q = P['q']
+        inner = py_sann(s['t'], model, {**P, 'in_str': True, 'q': '"' if q == "'" else "'"})
+        return q + inner + q
+    raise ValueError(k)
+
+
+SURF_PREAMBLE = PREAMBLE.replace('from __future__ import annotations\n', '') + \
+    'from typing_extensions import TypedDict, ReadOnly\n'
+# modules above the lowest one share its Enum classes
+SURF_PREAMBLE_UP = SURF_PREAMBLE[:SURF_PREAMBLE.index('class Color(Enum)')] + \
+    'from typing_extensions import TypedDict, ReadOnly\n'
+
+
+def emit_order(model, m):
+    """definition order inside module m: helpers and classes after what they reference when possible"""
+    surf = model['surface']
+    mine = lambda it: surf['mod_of'].get(it) == m
+    pending = [('named', n) for n in model['named'] if mine('named:' + n)] + \
+              [('typed', n) for n in model['typed'] if mine('typed:' + n)] + \
+              [('data', i) for i in class_order(model) if mine('data:%d' % i)]
+    emitted, order = set(), []
+
+    def deps_of(item):
+        kind, x = item
+        if kind == 'data':
+            d = set()
+            for f in model['classes'][x]['fields']:
+                for s in subtypes(f['ty'], model, into_helpers=False):
+                    if s['k'] in ('named', 'typed'):
+                        d.add((s['k'], s['name']))
+            return d
+        return helper_deps(model, kind, x)
+
+    while pending:
+        progress = False
+        for item in list(pending):
+            need = {d for d in deps_of(item) if d not in emitted and d != item and d in pending}
+            if item[0] == 'data':
+                need = {d for d in need if d[0] != 'data'}
+            if not need:
+                order.append(item)
+                emitted.add(item)
+                pending.remove(item)
+                progress = True
+        if not progress:
+            item = pending.pop(0)
+            order.append(item)
+            emitted.add(item)
+    return order
+
+
+def auto_surface(model, mod_of=None, fwd_mods=(), imports=None, tg=False):
+    """Surface of a core model: every annotation as written in Python source, with a string wherever the
+    referenced object is not yet defined at that point (and, in the dataclasses of the modules listed in
+    fwd_mods, around EVERY dataclass reference).  TypedDict optional keys get NotRequired[...] unless the
+    key's annotation carries the mark '_hole' (the caller then writes the qualifiers itself)."""
+    n_mod = 1 + max((mod_of or {}).values(), default=0)
+    full = {}
+    for i in range(len(model['classes'])):
+        full['data:%d' % i] = (mod_of or {}).get('data:%d' % i, n_mod - 1)
+    for n in model['named']:
+        full['named:' + n] = (mod_of or {}).get('named:' + n, n_mod - 1)
+    for n in model['typed']:
+        full['typed:' + n] = (mod_of or {}).get('typed:' + n, n_mod - 1)
+    surf = model['surface'] = {'mod_of': full, 'imports': {str(k): list(v) for k, v in (imports or {}).items()},
+                               'cls': [None] * len(model['classes']), 'named': {}, 'typed': {}, 'aliases': {}, 'tg': tg,
+                               'n_mod': n_mod}
+    for m in range(n_mod):
+        defined = set()
+
+        def conv(t, fwd):
+            it = item_of(t)
+            if it is not None:
+                dm = full[it]
+                if dm > m:
+                    raise ValueError('module %d cannot refer to %s of module %d' % (m, it, dm))
+                node = dict(t)
+                if (dm == m and it not in defined) or (fwd and t['k'] == 'data'):
+                    return s_str(node)
+                return node
+            return s_map(t, lambda x: conv(x, fwd))
+
+        for kind, x in emit_order(model, m):
+            if kind == 'named':
+                surf['named'][x] = [conv(t, False) for _, t in model['named'][x]]
+            elif kind == 'typed':
+                d = model['typed'][x]
+                surf['typed'][x] = {'req': [conv(t, False) for _, t in d['req']],
+                                    'opt': [conv(t, False) if t.get('_hole') else s_qual('NotRequired', conv(t, False))
+                                            for _, t in d['opt']], 'total': True}
+            else:
+                surf['cls'][x] = [conv(f['ty'], m in fwd_mods) for f in model['classes'][x]['fields']]
+            defined.add('%s:%s' % (kind, x))
+    return surf
+
+
+def find_hole(s):
+    """path (list of child indexes) to the node marked '_hole' in a surface tree, or None"""
+    if s.get('_hole'):
+        return []
+    for i, c in enumerate(s_children(s)):
+        p = find_hole(c)
+        if p is not None:
+            return [i] + p
+    return None
+
+
+def replace_at(s, path, new):
+    if not path:
+        return new
+    i = path[0]
+    n = [0]
+
+    def f(x):
+        j = n[0]
+        n[0] += 1
+        return replace_at(x, path[1:], new) if j == i else x
+    return s_map(s, f)
+
+
+def strip_marks(t):
+    if isinstance(t, dict):
+        t.pop('_hole', None)
+        for v in t.values():
+            strip_marks(v)
+    elif isinstance(t, list):
+        for v in t:
+            strip_marks(v)
+
+
+def surface_annotations(model):
+    """[(where, holder, index, S)] for every annotation of the program"""
+    surf = model['surface']
+    out = []
+    for ci, fields in enumerate(surf['cls']):
+        for j, s in enumerate(fields):
+            out.append(('cls', ci, j, s))
+    for n, fields in surf['named'].items():
+        for j, s in enumerate(fields):
+            out.append(('named', n, j, s))
+    for n, d in surf['typed'].items():
+        for j, s in enumerate(d['req']):
+            out.append(('typed-req', n, j, s))
+        for j, s in enumerate(d['opt']):
+            out.append(('typed-opt', n, j, s))
+    for n, s in surf['aliases'].items():
+        out.append(('alias', n, 0, s))
+    return out
+
+
+def set_annotation(model, where, holder, j, s):
+    surf = model['surface']
+    if where == 'cls':
+        surf['cls'][holder][j] = s
+    elif where == 'named':
+        surf['named'][holder][j] = s
+    elif where == 'typed-req':
+        surf['typed'][holder]['req'][j] = s
+    elif where == 'typed-opt':
+        surf['typed'][holder]['opt'][j] = s
+    else:
+        surf['aliases'][holder] = s
+
+
+def model_sources(model, names):
+    """Python source of every module of a surface model; names[m] = the module's real name"""
+    surf = model['surface']
+    out = []
+    for m in range(surf['n_mod']):
+        P = {'mod': m, 'in_str': False, 'q': "'"}
+        src = [SURF_PREAMBLE if m == 0 else SURF_PREAMBLE_UP + 'from %s import Color, Num\n' % names[0]]
+        imp = surf['imports'].get(str(m), [])
+        for j in range(m):
+            src.append('import %s as M%d' % (names[j], j))
+            mine = [n for n in imp if any(item_name(model, it) == n and mm == j for it, mm in surf['mod_of'].items())]
+            if mine:
+                src.append('from %s import %s' % (names[j], ', '.join(mine)))
+        for x, s in surf['aliases'].items():
+            if surf['mod_of']['alias:' + x] == m:
+                src.append('type %s = %s' % (x, py_sann(s, model, P)))
+        for kind, x in emit_order(model, m):
+            if kind == 'named':
+                src.append('class %s(NamedTuple):' % x)
+                for (lbl, _), s in zip(model['named'][x], surf['named'][x]):
+                    src.append('    %s: %s' % (lbl, py_sann(s, model, P)))
+            elif kind == 'typed':
+                d, sd = model['typed'][x], surf['typed'][x]
+                src.append('class %s(TypedDict%s):' % (x, '' if sd.get('total', True) else ', total=False'))
+                for (k, _), s in zip(d['req'] + d['opt'], sd['req'] + sd['opt']):
+                    src.append('    %s: %s' % (k, py_sann(s, model, P)))
+                if not d['req'] and not d['opt']:
+                    src.append('    pass')
+            else:
+                c = model['classes'][x]
+                src.append('@dataclass')
+                src.append('class %s:' % c['name'])
+                if not c['fields']:
+                    src.append('    pass')
+                for f, s in zip(c['fields'], surf['cls'][x]):
+                    src.append('    %s: %s%s' % (f['name'], py_sann(s, model, P), field_rhs(f)))
+        out.append('\n'.join(src) + '\n')
+    return out
+
+
+# ---------------------------------------------------------------------------------- surface -> Gallina
+def _refs_index(model):
+    surf = model['surface']
+    return {'named': {n: i for i, n in enumerate(model['named'])}, 'typed': {n: i for i, n in enumerate(model['typed'])},
+            'alias': {n: i for i, n in enumerate(surf['aliases'])}}
+
+
+def coq_ref(it, model, ix):
+    kind, x = it.split(':', 1)
+    if kind == 'data':
+        return '(RData %s)' % x
+    return '(%s %d)' % ({'named': 'RNamed', 'typed': 'RTyped', 'alias': 'RAlias'}[kind], ix[kind][x])
+
+
+def coq_sann(s, model, ix, pin=None):
+    k = s['k']
+    rec = lambda x: coq_sann(x, model, ix)
+    if k == 'leaf':
+        return '(SLeaf %s)' % coq_leaf(s['l'])
+    if k == 'seq':
+        return '(SSeq %s %s)' % (COQ_KIND[s['kind']], rec(s['t']))
+    if k == 'tuple':
+        return '(STuple %s)' % clist([rec(x) for x in s['ts']])
+    if k == 'dict':
+        dd = '(Some %s)' % cstr(dd_factory(core_of(s['vt'], model))) if s['dd'] else '(Some (S "OrderedDict"))' if s.get('od') else 'None'
+        return '(SDict %s %s %s)' % (dd, rec(s['kt']), rec(s['vt']))
+    if k == 'opt':
+        return '(SOpt %s)' % rec(s['t'])
+    if k == 'optr':
+        # faithful to the open defect F52: get_string_for_annotation takes args[0] (NoneType) as THE member
+        return '(SOpt (SLeaf LNone))'
+    if k == 'union':
+        if any(core_of(x, model)['k'] == 'data' for x in s['ts']):
+            raise ValueError('tagged Union of dataclasses is outside the Gallina model')
+        return '(SUnion %s)' % clist([rec(x) for x in s['ts']])
+    if k == 'lit':
+        return '(SLit %s)' % clist([coq_lit(v) for v in s['vs']])
+    if k in ('named', 'typed', 'data', 'alias'):
+        return '(SRef %s)' % coq_ref(item_of(s), model, ix)
+    if k == 'ann':
+        return '(SAnn %s)' % rec(s['t'])
+    if k == 'qual':
+        return '(SQual %s %s)' % (COQ_QUAL[s['q']], rec(s['t']))
+    if k == 'str':
+        return '(SStr %s %s)' % ('None' if pin is None else '(Some %d)' % pin, rec(s['t']))
+    raise ValueError('%s is outside the Gallina surface model' % k)
+
+
+def coq_senv(model, keys):
+    """the surface program as a Gallina `senv`"""
+    surf = model['surface']
+    ix = _refs_index(model)
+    if surf.get('recursive_alias'):
+        raise ValueError('a recursive alias is outside the Gallina model (a core type is a finite tree)')
+    if model.get('named_alias'):
+        raise ValueError('renamed NamedTuples are outside the surface model')
+    cls = []
+    for ci, c in enumerate(model['classes']):
+        if c.get('meta'):
+            raise ValueError('per-class Meta is outside the Gallina model')
+        fs = []
+        for f, s in zip(c['fields'], surf['cls'][ci]):
+            if f.get('path') or f.get('alias'):
+                raise ValueError('Alias / AliasPath fields are outside the Gallina model')
+            k = keys[c['name']][f['name']]
+            d = f.get('default')
+            fs.append('{| sf_name := %s; sf_ann := %s; sf_default := %s; sf_keys := %s; sf_dkey := %s |}' % (
+                cstr(f['name']), coq_sann(s, model, ix), 'None' if d is None else '(Some %s)' % coq_pv(DEFAULT_TREE[d]),
+                clist([cstr(x) for x in k['load']]), cstr(k['dump'])))
+        cls.append('{| sc_name := %s; sc_mod := %d; sc_fields := %s |}' % (cstr(c['name']), surf['mod_of']['data:%d' % ci], clist(fs)))
+    nts = ['{| sn_name := %s; sn_fields := %s |}' % (cstr(n), clist(
+        ['(%s, %s)' % (cstr(lbl), coq_sann(s, model, ix)) for (lbl, _), s in zip(model['named'][n], surf['named'][n])]))
+        for n in model['named']]
+    tds = []
+    for n in model['typed']:
+        m = surf['mod_of']['typed:' + n]
+        d, sd = model['typed'][n], surf['typed'][n]
+        enc = lambda pairs, ss: clist(['(%s, %s)' % (cstr(k), coq_sann(s, model, ix, pin=m if s['k'] == 'str' else None))
+                                       for (k, _), s in zip(pairs, ss)])
+        tds.append('{| st_name := %s; st_req := %s; st_opt := %s |}' % (cstr(n), enc(d['req'], sd['req']), enc(d['opt'], sd['opt'])))
+    als = ['{| sa_name := %s; sa_value := %s |}' % (cstr(x), coq_sann(s, model, ix)) for x, s in surf['aliases'].items()]
+    ns = []
+    for m in range(surf['n_mod']):
+        ent = []
+        for it, mm in surf['mod_of'].items():
+            nm = item_name(model, it)
+            if mm == m or nm in surf['imports'].get(str(m), []):
+                ent.append('(%s, %s)' % (cstr(nm), coq_ref(it, model, ix)))
+        ns.append(clist(ent))
+    return '{| e_cls := %s; e_nts := %s; e_tds := %s; e_als := %s; e_ns := %s |}' % (
+        clist(cls), clist(nts), clist(tds), clist(als), clist(ns))
+
+
+def parse_sgen(s):
+    """output of case_sgen -> {'reserr': {...}} | {'same': bool, 'inok': bool, 'gen': parse_gen(...)}"""
+    if s.startswith('RESERR '):
+        r = s[7:]
+        return {'reserr': 'name' if r == '!B ' + 'NameError'.encode().hex() else 'fuel' if r == '!F' else 'type', 'raw': r}
+    head, rest = s.split('#', 1)
+    parts = head.split(' ')
+    return {'same': parts[1] == 'same', 'inok': parts[2] == 'ok', 'gen': parse_gen(rest)}
